@@ -159,7 +159,7 @@ theorem opUnlock_hok (db : DB) (c : Cmd) (h : HInv db) : HInv (opUnlock db c).1 
     simp only [applyUnlock]
     exact wake_setKey_hok _ h rfl (fun x hx => remove_hok hk x hx)
 
-theorem fireTimeout_hok (db : DB) (w : Waiter) (h : HInv db) : HInv (fireTimeout db w).1 := by
+theorem fireTimeout_hok (db : DB) (key : Nat) (w : Waiter) (h : HInv db) : HInv (fireTimeout db key w).1 := by
   unfold fireTimeout
   exact setKey_hok (h.of_keys_eq rfl) (getKey_hok h _)
 
@@ -179,7 +179,7 @@ theorem rearmHold_hok (db : DB) (hd : Hold) (h : HInv db) : HInv (rearmHold db h
 
 theorem sweepTimeout_hok (db : DB) (c : Nat) (h : HInv db) : HInv (sweepTimeout db c).1 := by
   unfold sweepTimeout timeoutPass1
-  refine foldl_P HInv _ (fun acc a ha => by unfold fireTimeoutStep; exact fireTimeout_hok _ _ ha) _ _ ?_
+  refine foldl_P HInv _ (fun acc a ha => by unfold fireTimeoutStep; split; exact fireTimeout_hok _ _ _ ha; exact ha) _ _ ?_
   exact foldl_P HInv _ (fun acc a ha => by unfold timeoutStep; split; exact rearmWaiter_hok _ _ ha; exact ha) _ _ h
 
 theorem sweepExpire_hok (db : DB) (c : Nat) (h : HInv db) : HInv (sweepExpire db c).1 := by
